@@ -564,3 +564,163 @@ def c05(r):
         (idxmut(0), "C05.year.newYear"), (idxmut(2), "C05.year.lichunDay"), (idxmut(4), "C05.year.lichunInstant"),
         (idxmut(6), "C05.month.jieDay"), (idxmut(8), "C05.month.jieInstant"), (idxmut(10), "C05.day"),
         (idxmut(12), "C05.day.earlyRat"), (idxmut(16), "C05.hour"), (strmut(4), "C05.names"), (ecmut, "C05.eightChar.sect1")]}, per_kind=1)
+
+
+# ---------------------------------------------------------- almanac family
+def year_frames(r, cmd, spec, years, maxlines, rowkey="rows"):
+    ch = r.drive(cmd, args={"years": years}, maxlines=maxlines)
+    r.validate(spec, ch)
+    r.sample_from(ch[:1])
+    r.cov["samples"] = [s[:600] for s in r.cov["samples"]]
+    n = 0
+    for c in ch:
+        for line in open(c, encoding="utf-8"):
+            n += len(json.loads(line).get(rowkey, []))
+    r.cov["days_observed"] = n
+    r.cov["distinct_nontrivial"] = n
+    return ch
+
+
+def row_with(e, pred, k=0):
+    c = 0
+    for row in e.get("rows", []):
+        if row.get("p") == 0 and pred(row):
+            if c == k:
+                return row
+            c += 1
+    return None
+
+
+@plan("C13", "exploration")
+def c13(r):
+    thorough = r.tier == "thorough"
+    r.rule = ("TLC model-checks MC_Seasonal (dog-day periods for every stem of the solstice day x solstice-to-Liqiu distance 44..49: "
+              "three contiguous periods of 10, 10|20, 10 days, day index +1 per day; nine-nines: 81 days in 9 groups; pentads: 3 per term, "
+              "72 in order). One frame per civil year (%s) with the term table and every day's GetShuJiu, GetFu, GetHou, GetWuHou (as "
+              "position in the library's 72-name list), GetFestivals, GetOtherFestivals and lunar date (+ 1 Jan of the next year); TLC "
+              "recomputes each from Seasonal.tla. Distinct non-trivial case = distinct civil day." %
+              ("every civil year 1..9998, 3.65M days" if thorough else "150 seeded + 22 boundary years"))
+    r.build()
+    r.mc("MC_Seasonal", "MC_Seasonal")
+    ch = year_frames(r, "c13years", "Trace_Almanac", 150, 10)
+    def sj(e):
+        row = row_with(e, lambda x: len(x["sj"]) == 4)
+        if not row: return False
+        row["sj"][1] = row["sj"][1] % 9 + 1
+        return True
+    def sjabs(e):
+        row = row_with(e, lambda x: len(x["sj"]) == 0 and x["x"] == 0)
+        if not row: return False
+        row["sj"] = ["一九", 1, "一九", "一九第1天"]
+        return True
+    def fu(e):
+        row = row_with(e, lambda x: len(x["fu"]) == 4)
+        if not row: return False
+        row["fu"][0] = "末伏" if row["fu"][0] != "末伏" else "中伏"
+        return True
+    def hou(e):
+        row = row_with(e, lambda x: x["x"] == 0, 30)
+        row["hou"] = row["hou"].replace("初候", "X").replace("二候", "初候").replace("X", "二候") if "三候" not in row["hou"] else row["hou"].replace("三候", "二候")
+        return True
+    def wh(e):
+        row = row_with(e, lambda x: x["x"] == 0, 100)
+        row["wh"] = (row["wh"] + 1) % 72
+        return True
+    def chuxi(e):
+        row = row_with(e, lambda x: "除夕" in x["f"])
+        if not row: return False
+        row["f"] = [v for v in row["f"] if v != "除夕"]
+        return True
+    def hanshi(e):
+        row = row_with(e, lambda x: "寒食节" in x["o"])
+        if not row: return False
+        row["o"] = [v for v in row["o"] if v != "寒食节"]
+        return True
+    def she(e):
+        row = row_with(e, lambda x: x["x"] == 0 and "春社" not in x["o"], 70)
+        row["o"] = row["o"] + ["春社"]
+        return True
+    r.negctl("Trace_Almanac", ch[:3], {"C13Year": [(sj, "C13.shuJiu"), (sjabs, "C13.shuJiu.absent"), (fu, "C13.fu"), (hou, "C13.hou"),
+                                                   (wh, "C13.wuHou"), (chuxi, "C13.chuXi"), (hanshi, "C13.hanShi"), (she, "C13.chunShe")]}, per_kind=1)
+
+
+@plan("C16", "exploration")
+def c16(r):
+    thorough = r.tier == "thorough"
+    r.rule = ("TLC model-checks MC_NineStar (year star: -1 per pillar year, 2024 = three, period 9 and agreement with the 180-year "
+              "three-cycle formula transcribed from the code for years 1..9999; day star: up from 0 at the winter anchor, down from 8 at "
+              "the summer anchor for all anchor distances; hour star: 3 branch groups x 2 halves x 12 slots). One frame per civil year "
+              "(%s) with the term table, the previous year's summer solstice, every day's year star under 3 conventions, month star "
+              "under 3 conventions (step at each Jie day; instant level one second around each Jie instant), day star, hour stars on 12 "
+              "slots of ~19 days incl. the solstice days, and the naming getters of all nine star objects. "
+              "Distinct non-trivial case = distinct civil day." % ("every civil year 2..9998" if thorough else "100 seeded + 22 boundary years"))
+    r.assumptions += ["month star: only the step at each Jie is demanded; under convention 1 days on which the New-Year-based year changes are skipped",
+                      "day star: a 30/30 tie between the two jiazi days around a solstice accepts either anchor",
+                      "hour star at 23:00-23:59 is not judged (the statement does not say which day's branch applies)"]
+    r.build()
+    r.mc("MC_NineStar", "MC_NineStar")
+    ch = year_frames(r, "c16years", "Trace_Almanac", 100, 8)
+    def rowmut(field, idx, k=50):
+        def f(e):
+            row = row_with(e, lambda x: x["x"] == 0, k)
+            if not row: return False
+            if idx is None:
+                row[field] = (row[field] + 1) % 9
+            else:
+                row[field][idx] = (row[field][idx] + 1) % 9
+            return True
+        return f
+    def hsmut(e):
+        for h in e["hs"]:
+            if h["p"] == 0:
+                h["ts"] = (h["ts"] + 1) % 9
+                return True
+        return False
+    def jsmut(e):
+        for j in e["js"]:
+            if j["p"] == 0 and j["ds"] == 0:
+                j["m3"] = (j["m3"] + 1) % 9
+                return True
+        return False
+    def names(e):
+        e["names"][4][5] = e["names"][3][5]
+        return True
+    r.negctl("Trace_Almanac", ch[:3], {"C16Year": [
+        (rowmut("ys", 0), "C16.yearStar.newYear"), (rowmut("ys", 1), "C16.yearStar.lichunDay"), (rowmut("ys", 2), "C16.yearStar.lichunInstant"),
+        (rowmut("ms", 1), "C16.monthStar.lichunDay"), (rowmut("ds", None), "C16.dayStar"), (hsmut, "C16.hourStar"),
+        (jsmut, "C16.monthStar.jieInstant"), (names, "C16.names")]}, per_kind=1)
+
+
+@plan("C17", "exploration")
+def c17(r):
+    thorough = r.tier == "thorough"
+    r.rule = ("One frame per civil year (%s): every day at a rotating time of day: lunar, Taoist and Buddhist year/month/day, NewTao / "
+              "NewFoto built from those numbers (numbers given back, same moment), 14 day-class predicates (each guarded separately), "
+              "the Buddhist day mansion, the day pillar, the day's solar term, the month length. TLC checks the fixed year offsets "
+              "(+2697, +544), the round trips, each predicate against the hand-written definitional set of Religious.tla, functional "
+              "dependence of the (month, day)-defined predicates within the year, the mansion advancing one per day inside a month. "
+              "TLC also model-checks MC_Religious (closed-list laws over all 24 x 30 month-days x 60 pillars). Distinct non-trivial case = distinct civil day." %
+              ("every civil year 1..9998" if thorough else "150 seeded + 22 boundary years"))
+    r.assumptions += ["closed-list predicates (san-hui, san-yuan, wu-la) are judged on non-leap months only; the definitions do not say whether a leap month counts",
+                      "IsDayZhaiGuanYin is checked for functional dependence only (its list is library data)"]
+    r.build()
+    r.mc("MC_Religious", "MC_Religious")
+    ch = year_frames(r, "c17years", "Trace_Almanac", 150, 8)
+    def m(field, idx, k=40):
+        def f(e):
+            row = row_with(e, lambda x: "pred" in x, k)
+            if not row: return False
+            row[field][idx] += 1
+            return True
+        return f
+    def pred(i, k=40):
+        def f(e):
+            row = row_with(e, lambda x: "pred" in x and x["pred"][i] != 2 and x["l"][1] > 0, k)
+            if not row: return False
+            row["pred"][i] = 1 - row["pred"][i]
+            return True
+        return f
+    r.negctl("Trace_Almanac", ch[:4], {"C17Year": [
+        (m("t", 0), "C17.tao.year-month-day"), (m("f", 0), "C17.foto.year-month-day"), (m("tr", 5), "C17.tao.roundtrip"), (m("fr", 2), "C17.foto.roundtrip"),
+        (pred(0), "C17.sanHui"), (pred(3), "C17.baJie"), (pred(4), "C17.baHui"), (pred(6), "C17.anWu"), (pred(9), "C17.yangGong"),
+        (pred(11), "C17.zhaiSix"), (pred(12), "C17.zhaiTen")]}, per_kind=1)
